@@ -306,6 +306,8 @@ def run(ctx):
         C05.c05b(ctx, tu)   # order = maximum over the named sequences
         C05.c05c(ctx, tu)   # what a matched step leaves in front of later candidates (retire_until)
         c02b(ctx, tu)
+        from rules import C14
+        C14.c14g(ctx, tu)   # "newest first" is the list order: insertion at the front, and moves (movable mocks) keep the order
         n += c02d(ctx, tu)
         units.append({"unit": tu.name, "functions": len(tu.fns)})
     ctx.floor("C02.d MAKE_MOCK routing instances", n, 20)
